@@ -576,4 +576,74 @@ func runC05(c *core.Ctx) {
 			}
 		}
 	}
+
+	// what the HTTP request says about itself - its Host header, the authority of its request-target, forwarding headers - is chosen by
+	// whoever sends it: the Destination has to be the IdP's configured SSO URL whatever those say
+	c.Group("gate-destination-x-what-the-request-says-about-itself")
+	if md, err := buildShape(gateShapes[0], false); err == nil {
+		idp := mkIDP(md)
+		gdests := []sv{{"absent", nil}, {"sso", samlgen.S(samlgen.IDPSSO)}, {"other-host-same-path", samlgen.S("https://idp.other.example/saml/sso")}, {"other-host-with-port", samlgen.S("https://idp.other.example:8443/saml/sso")},
+			{"http-scheme", samlgen.S("http://idp.example.com/saml/sso")}, {"other", samlgen.S("https://other-idp.example.net/sso")}}
+		hosts := []string{"", "idp.other.example", "idp.other.example:8443", "other-idp.example.net", "IDP.EXAMPLE.COM", "idp.example.com:443"}
+		targets := []string{samlgen.IDPSSO, "https://idp.other.example/saml/sso", "/saml/sso", "http://idp.example.com/saml/sso"}
+		fwds := []map[string]string{nil, {"X-Forwarded-Host": "idp.other.example", "X-Forwarded-Proto": "https"}, {"Forwarded": "host=idp.other.example;proto=https"}, {"X-Forwarded-Proto": "http"}}
+		for _, de := range gdests {
+			for hi, host := range hosts {
+				for ti, target := range targets {
+					for fi, fwd := range fwds {
+						for _, enc := range []string{"GET", "POST"} {
+							de, host, target, fwd, enc := de, host, target, fwd, enc
+							key := fmt.Sprintf("gate-http/dest=%s/host=%d/target=%d/forwarded=%d/enc=%s", de.n, hi, ti, fi, enc)
+							c.Case(key, func(t *core.T) {
+								t.NonTrivial()
+								saml.MaxIssueDelay, saml.MaxClockSkew = tols[0].delay, tols[0].skew
+								doc := authnRequestXML(samlgen.S(samlgen.SPEntity), de.v, samlgen.S("2.0"), samlgen.S(samlgen.TS(samlgen.T0)), nil, nil, "id-req-1")
+								var r *http.Request
+								if enc == "GET" {
+									r = httptest.NewRequest("GET", target+"?"+url.Values{"SAMLRequest": {b64(deflate(doc))}, "RelayState": {"rs"}}.Encode(), nil)
+								} else {
+									r = httptest.NewRequest("POST", target, strings.NewReader(url.Values{"SAMLRequest": {b64(doc)}, "RelayState": {"rs"}}.Encode()))
+									r.Header.Set("Content-Type", "application/x-www-form-urlencoded")
+								}
+								if host != "" {
+									r.Host = host
+								}
+								for k, v := range fwd {
+									r.Header.Set(k, v)
+								}
+								var err error
+								_, p := guard(func() error {
+									var req *saml.IdpAuthnRequest
+									req, err = saml.NewIdpAuthnRequest(idp, r)
+									if err == nil {
+										err = req.Validate()
+									}
+									return nil
+								})
+								t.Impl(1)
+								if p != "" {
+									t.Fail("C05/gate/panic@"+p[strings.LastIndex(p, "@")+1:], "panicked: %s", p)
+									return
+								}
+								v := core.MustReject
+								if de.n == "absent" || de.n == "sso" {
+									v = core.MustAccept
+								}
+								t.Modelled(v)
+								t.Compared()
+								t.Outcome(fmt.Sprint(err == nil))
+								if v == core.MustReject && err == nil {
+									t.Fail("C05/gate/accepts-request-made-out-to-another-destination", "Destination %q accepted by the IdP at %s (Host %q, request-target %q, headers %v)", *de.v, samlgen.IDPSSO, host, target, fwd)
+									t.Input("request_xml", string(doc))
+								}
+								if v == core.MustAccept && err != nil {
+									t.Fail("C05/gate/rejects-valid-request", "valid request refused (%s): %v", key, err)
+								}
+							})
+						}
+					}
+				}
+			}
+		}
+	}
 }
